@@ -33,9 +33,11 @@ VALS = [(False, False), (False, True), (True, False), (True, True)]
 
 def bounds(tier):
     if tier == "quick":
-        return {"max_nodes_full_condition_set": 6, "valuations": 4}
+        return {"max_nodes_full_condition_set": 6, "valuations": 4,
+                "wide_blocks": "all blocks of 3-4 children over a 21-item menu of conditionals/leaves"}
     return {"max_nodes_full_condition_set": 7, "max_nodes_reduced_condition_set(p,!p,q)": 8,
-            "valuations": 4, "with_forloop_nodes_max": 5}
+            "valuations": 4, "with_forloop_nodes_max": 5,
+            "wide_blocks": "all blocks of 3-5 children over a 21-item menu of conditionals/leaves"}
 
 
 # ---- enumeration -------------------------------------------------------------
@@ -112,6 +114,9 @@ def root_shards(n, conds, loops=False):
 
 def gen_shard(sh, conds, loops):
     kind = sh[0]
+    if kind == "seq":
+        yield from gen_seq(sh[2], sh[3])
+        return
     if kind == "leafs":
         yield from _gen(1, conds, loops)
     elif kind == "B":
@@ -133,8 +138,30 @@ def gen_shard(sh, conds, loops):
                 yield ("E", c, a, b)
 
 
+SEQ_CONDS = ["p", "!p", "q", "!q", "T", "F"]
+
+
+def seq_menu():
+    menu = [("L",), ("N",), ("B", ("L",), ("L",))]
+    for c in SEQ_CONDS:
+        menu += [("I", c, ("L",)), ("E", c, ("L",), ("L",)), ("E", c, ("L",), ("N",))]
+    return menu
+
+
+def gen_seq(length, first):
+    """wide, shallow trees: a block of `length` children from the menu (first child fixed by the shard)"""
+    menu = seq_menu()
+    for rest in itertools.product(menu, repeat=length - 1):
+        yield ("B", menu[first]) + rest
+
+
 def shards(tier, seed):
     out = []
+    for length in ((3, 4) if tier == "quick" else (3, 4, 5)):
+        for first in range(len(seq_menu())):
+            m = 1 if length < 5 else 8
+            for r in range(m):
+                out.append({"sh": ["seq", 99, length, first], "conds": "full", "loops": False, "mod": m, "rem": r})
 
     def add(n, conds_name, loops=False):
         conds = CONDS if conds_name == "full" else CONDS_REDUCED
@@ -156,7 +183,7 @@ def shards(tier, seed):
         for n in range(2, 5):
             add(n, "full", loops=True)
     # big shards first for load balance
-    out.sort(key=lambda d: -d["sh"][1])
+    out.sort(key=lambda d: -d["sh"][1] if d["sh"][0] != "seq" else -50)
     return out
 
 
